@@ -170,7 +170,8 @@ func RunSharded(r *Run, n int, workerArgs []string, caseTimeout time.Duration, m
 				// re-run the stuck case alone, up to 2 more times, before believing it
 				confirmed := true
 				for attempt := 0; attempt < ConfirmRuns; attempt++ {
-					s2, _, _ := runWorkerSingle(self, workerArgs, stuck, caseTimeout, memKB, func(res CaseResult) {
+					// alone and with six times the time: a case that was merely starved on a loaded machine completes now
+					s2, _, _ := runWorkerSingle(self, workerArgs, stuck, 6*caseTimeout, memKB, func(res CaseResult) {
 						mu.Lock()
 						merge(res)
 						mu.Unlock()
@@ -214,6 +215,7 @@ func runWorkerSingle(self string, workerArgs []string, idx int, caseTimeout time
 	// shard=idx, of=huge: only case idx is run
 	cmdline := fmt.Sprintf("ulimit -v %d; exec %q %s %d %d %d", memKB, self, strings.Join(workerArgs, " "), idx, 1<<30, idx)
 	cmd := exec.Command("bash", "-c", cmdline)
+	cmd.Env = append(os.Environ(), "VERIF_CONFIRM_RUN=1") // workers with a watchdog of their own give a confirmation run more time
 	out, _ := cmd.StdoutPipe()
 	if err := cmd.Start(); err != nil {
 		panic(err)
